@@ -131,6 +131,50 @@ pub fn run(thorough: bool) -> Report {
 
     // 3. Argument dispatch through the interpreter.
     let args = ["1", "0.5", "1000000000", "0", "-1", "-0.5"];
+    // (5) RND inside RND's argument, and RUN: neither may disturb the generator
+    {
+        for &seed in &[0u64, 1, 12345, (1 << 33) - 1, 1 << 44] {
+            let r = guarded(|| {
+                let mut s = Sess::new();
+                s.it.randomize(seed);
+                let mut m = seed % LCG_M;
+                let mut problems = vec![];
+                // RND(RND(1)): the inner call steps first, its (positive) value selects a step
+                s.recs.clear();
+                let _ = s.apply(&Ev::Line("PRINT RND(RND(1))".into()));
+                m = lcg_next(m);
+                if lcg_value(m) > 0.0 {
+                    m = lcg_next(m);
+                }
+                if s.printed() != format!("{}\n", lcg_value(m)) {
+                    problems.push(format!("PRINT RND(RND(1)) printed {:?}, the documented sequence gives {}", s.printed(), lcg_value(m)));
+                }
+                // a program run continues the sequence; a second RUN continues it further
+                let _ = s.apply(&Ev::Line("10 PRINT RND(1);\" \";RND(0)".into()));
+                for _ in 0..2 {
+                    s.recs.clear();
+                    let _ = s.apply(&Ev::LineToIdle("RUN".into()));
+                    m = lcg_next(m);
+                    let want = format!("{} {}\n", lcg_value(m), lcg_value(m));
+                    if s.printed() != want {
+                        problems.push(format!("RUN of 10 PRINT RND(1);\" \";RND(0) printed {:?}, the sequence continues with {:?}", s.printed(), want));
+                    }
+                }
+                problems
+            });
+            let problems = match r {
+                Ok(p) => p,
+                Err(p) => vec![format!("panic {}", p)],
+            };
+            for p in problems.into_iter().take(1) {
+                rep.add(Violation {
+                    signature: format!("generator disturbed: {}", p.split(" printed").next().unwrap_or("")),
+                    detail: format!("seed {}: {}", seed, p),
+                    case: case_history(&[Ev::Randomize(seed), Ev::Line("PRINT RND(RND(1))".into()), Ev::Line("10 PRINT RND(1);\" \";RND(0)".into()), Ev::LineToIdle("RUN".into()), Ev::LineToIdle("RUN".into())], false, false),
+                });
+            }
+        }
+    }
     let disp_seeds: [u64; 5] = [0, 1, (1 << 33) - 1, 1 << 44, u64::MAX];
     let maxlen = 6;
     let mut seqs: Vec<Vec<usize>> = vec![];
